@@ -1,6 +1,6 @@
 (* C09 — dynamic name access freezes every name in the module. *)
 From Coq Require Import String.
-From PM Require Import Model.Base Model.Renamer Proofs.RenamerProofs Model.PipelineBase Gen.Pipeline.
+From PM Require Import Model.Base Model.Renamer Proofs.RenamerProofs Model.PipelineBase Gen.Pipeline Model.ScopeBase Gen.ResolveNames.
 Open Scope bool_scope.
 #[local] Open Scope string_scope.
 
@@ -11,6 +11,17 @@ Theorem C09_tainted_gates : forall O ann,
   stage_runs minify_body O true ann "remove_no_arg_exception_call" = false.
 Proof. intros. split; cbn; rewrite ?andb_false_r; reflexivity. Qed.
 Print Assumptions C09_tainted_gates.
+
+(* what sets module.tainted, re-read from the source on every run: the unshadowed use of exec / eval / locals / globals / vars
+   (resolve_names.get_binding: any reference that reaches the module under such a name, also when the module binds the name itself), a star import and an import of timeit (NameBinder.visit_alias); and the
+   ONLY other assignment to a `.tainted` attribute anywhere in rename/ and __init__.py is the initialisation to False *)
+Theorem C09_taint_sources_are_the_reviewed_ones :
+  taint_builtins = ["exec"; "eval"; "locals"; "globals"; "vars"] /\ taint_modules = ["timeit"] /\ star_import_taints = true /\
+  taint_regardless_of_module_binding = true /\
+  tainted_writes = [("rename/bind_names.py", "False"); ("rename/bind_names.py", "True"); ("rename/bind_names.py", "True");
+                    ("rename/resolve_names.py", "True"); ("rename/resolve_names.py", "True"); ("rename/resolve_names.py", "True")].
+Proof. repeat split; reflexivity. Qed.
+Print Assumptions C09_taint_sources_are_the_reviewed_ones.
 
 Fixpoint index_of (p : pstmt -> bool) (l : list pstmt) : option nat :=
   match l with [] => None | x :: l' => if p x then Some 0 else option_map S (index_of p l') end.
